@@ -24,7 +24,7 @@ func init() {
 			"proceeds to rate limiting. The single exception is the FORMERR answer for a malformed ECS option, which " +
 			"C05 demands and which is written before any access decision.",
 		NotCovered: "what the urlfilter engines behind IsBlockedHost / blockedHostsEng match; effects inside third-party libraries reached from the access decision.",
-		Rules: map[string]string{
+		Rules: map[string]string{"C10-R10": "codecs return a nil sub-message only for a nil input; access.Global keeps the whole configured subnet list and IsBlockedIP is a membership test on it", 
 			"C10-R1": "decision tables of isBlockedByNets, matchASNs, IsBlocked, isBlockedByAccess",
 			"C10-R2": "Wrap closure: location stored before the decision; blocked edge silent; other edge proceeds",
 			"C10-R4": "question names are normalised before they are matched against access rules",
@@ -44,6 +44,14 @@ func runC10(c *an.Ctx) {
 		"initDNS|dnssvc.HandlersConfig": {"AccessManager", "GeoIP"},
 	})
 	c10AccessCodec(c)
+	// ---- R10: the file cache's encoders drop a sub-message only when it is absent (access settings with name rules
+	// alone are still settings); the global access list is the whole configured list
+	if n := sharedNilOnlyAbsent(c, "C10-R10", nilWhenDisabled, "profiledb/internal/filecachepb.", "backendpb."); n >= 3 {
+		c.Ok("C10-R10", "optional sub-messages are nil only when absent", token.NoPos, "%d nil returns of pointer-to-pointer converters examined", n)
+	} else {
+		c.Und("C10-R10", "optional sub-messages are nil only when absent", token.NoPos, "only %d nil returns found", n)
+	}
+	c10Global(c)
 	// ---- R7: the location handed to the access check is not an object shared with the GeoIP cache that later code modifies
 	c.Floor("C10-R7", 1)
 	c.Borrow("C10-R7", runC05, func(o an.Obligation) bool { return o.Rule == "C05-R1" && strings.Contains(o.Key, "locFromReq") })
@@ -476,4 +484,69 @@ func c10AccessCodec(c *an.Ctx) {
 	checkFieldMap(c, "C10-R8", "profiledb/internal/filecachepb.(*Access).toInternal", "access.ProfileConfig", map[string]string{
 		"AllowedNets": ".AllowlistCidr", "BlockedNets": ".BlocklistCidr", "AllowedASN": ".AllowlistAsn", "BlockedASN": ".BlocklistAsn",
 		"BlocklistDomainRules": ".BlocklistDomainRules"})
+}
+
+
+// c10Global: the global blocklist of client subnets.
+func c10Global(c *an.Ctx) {
+	decide(c, "C10-R10", "access.(*Global).IsBlockedIP", an.DecideCfg{
+		Dom: an.Domain{"contains": an.Bools},
+		OnCall: func(it *an.Interp, name string, args []an.AV) (an.AV, bool) {
+			if name == "p0.blockedNets.Contains" {
+				if args[0].String() != "p1" {
+					return an.Sym("membership of " + args[0].String()), true
+				}
+				return it.Feature("contains"), true
+			}
+			return an.AV{}, false
+		},
+		Expect: func(f an.Features, o an.AOutcome) string {
+			if len(o.Ret) == 1 && o.Ret[0].Kind == an.KConst && o.Ret[0].IsTrue() == f.B("contains") {
+				return ""
+			}
+			return "blocked exactly when the configured subnet set contains the address; got " + o.RetString()
+		},
+	})
+	fn := c.Fn("access.NewGlobal")
+	if fn == nil {
+		c.Und("C10-R10", "access.NewGlobal keeps the whole subnet list", token.NoPos, "anchor not found")
+		return
+	}
+	c.Analysed("access.NewGlobal")
+	n := 0
+	bad := ""
+	an.Instrs(fn, func(in ssa.Instruction) {
+		st, ok := in.(*ssa.Store)
+		if !ok {
+			return
+		}
+		if typ, field, _, ok := an.FieldOf(st.Addr); ok && typ == "access.Global" && field == "blockedNets" {
+			n++
+			v := st.Val
+			for {
+				switch x := v.(type) {
+				case *ssa.MakeInterface:
+					v = x.X
+					continue
+				case *ssa.ChangeType:
+					v = x.X
+					continue
+				}
+				break
+			}
+			if pa, isP := v.(*ssa.Parameter); !isP || an.ParamIndex(pa) != 1 {
+				bad = "the set is built from " + v.String() + ", not directly from the configured list"
+			}
+		}
+	})
+	c.Check(n == 1 && bad == "", "C10-R10", "access.NewGlobal keeps the whole subnet list", fn.Pos(),
+		"the subnet set is the configured list itself", fmt.Sprintf("%d stores; %s", n, bad))
+}
+
+
+// nilWhenDisabled lists the converters that also return nil for a present but
+// switched-off message, confirmed by reading: the decoder of the same message
+// maps nil to "disabled".
+var nilWhenDisabled = map[string]string{
+	"profiledb/internal/filecachepb.authToProtobuf": "p0.Enabled=false",
 }
